@@ -527,8 +527,119 @@ fn exercise(t: &TS, schema: &Schema, dist: &mut Dist) -> Vec<Sexp> {
     panics
 }
 
+// ------------------------------------------------------------------ required input cycles: distribution
+
+/// how the fields of an input object are scanned for required references; `Full` is the rule,
+/// the others are order-dependent scans (used ONLY to count in the evidence how many generated
+/// cases tell such a scan from the rule — the verdict is judged by the Lean spec, not by this)
+#[derive(Clone, Copy, PartialEq)]
+enum Scan {
+    Full,
+    /// stops at the first nullable or list-typed field
+    StopAtOptionalOrList,
+    /// stops at the first field that is not a required reference to an input object (`ID!` stops it too)
+    StopAtNonRef,
+    /// follows the first required reference to an input object only
+    FirstRefOnly,
+    /// follows the last required reference to an input object only
+    LastRefOnly,
+}
+
+fn required_name(ty: &Ty) -> Option<&str> {
+    match ty {
+        Ty::NN(x) => match &**x {
+            Ty::N(n) => Some(n),
+            _ => None,
+        },
+        _ => None,
+    }
+}
+
+fn input_fields<'a>(t: &'a TS, n: &str) -> Option<&'a Vec<Arg>> {
+    // type names are distinct in generated cases; a later registration would overwrite an earlier one
+    t.types.iter().rev().find_map(|d| match d {
+        Def::Input { name, fields, .. } if name == n => Some(fields),
+        _ => None,
+    })
+}
+
+fn scan_refs<'a>(t: &'a TS, fields: &'a [Arg], scan: Scan) -> Vec<&'a str> {
+    let is_ref = |f: &&Arg| required_name(&f.ty).is_some_and(|n| input_fields(t, n).is_some());
+    let refs: Vec<&str> = match scan {
+        Scan::Full | Scan::FirstRefOnly | Scan::LastRefOnly => fields.iter().filter(is_ref).filter_map(|f| required_name(&f.ty)).collect(),
+        Scan::StopAtOptionalOrList => {
+            fields.iter().map_while(|f| required_name(&f.ty)).filter(|n| input_fields(t, n).is_some()).collect()
+        }
+        Scan::StopAtNonRef => fields.iter().take_while(is_ref).filter_map(|f| required_name(&f.ty)).collect(),
+    };
+    match scan {
+        Scan::FirstRefOnly => refs.into_iter().take(1).collect(),
+        Scan::LastRefOnly => refs.into_iter().rev().take(1).collect(),
+        _ => refs,
+    }
+}
+
+/// names of the input objects that reach themselves through the scanned required references
+fn self_requiring(t: &TS, scan: Scan) -> Vec<String> {
+    let mut out = vec![];
+    for d in &t.types {
+        if let Def::Input { name, fields, .. } = d {
+            let mut seen: Vec<&str> = vec![];
+            let mut todo: Vec<&str> = scan_refs(t, fields, scan);
+            while let Some(n) = todo.pop() {
+                if seen.contains(&n) {
+                    continue;
+                }
+                seen.push(n);
+                if let Some(fs) = input_fields(t, n) {
+                    todo.extend(scan_refs(t, fs, scan));
+                }
+            }
+            if seen.contains(&name.as_str()) {
+                out.push(name.clone());
+            }
+        }
+    }
+    out
+}
+
+fn cycle_dist(t: &TS, dist: &mut Dist) {
+    let n_inputs = t.types.iter().filter(|d| matches!(d, Def::Input { .. })).count();
+    if n_inputs == 0 {
+        return;
+    }
+    dist.hit("cyc_cases_with_input_objects");
+    let full = self_requiring(t, Scan::Full);
+    if full.is_empty() {
+        // is a cycle of references present at all (broken by a nullable or list position)?
+        let any_ref = t.types.iter().any(|d| matches!(d, Def::Input { fields, .. } if fields.iter().any(|f| input_fields(t, f.ty.name()).is_some())));
+        if any_ref {
+            dist.hit("cyc_none_required_but_input_refs_present");
+        }
+        return;
+    }
+    dist.hit("cyc_required_cycle_present");
+    dist.hit(&format!("cyc_required_members_{}", full.len().min(9)));
+    for (scan, key) in [
+        (Scan::StopAtOptionalOrList, "cyc_required_cycle_behind_optional_or_list_field"),
+        (Scan::StopAtNonRef, "cyc_required_cycle_behind_any_non_reference_field"),
+        (Scan::FirstRefOnly, "cyc_required_cycle_behind_another_required_reference"),
+        (Scan::LastRefOnly, "cyc_required_cycle_before_another_required_reference"),
+    ] {
+        let seen = self_requiring(t, scan);
+        if seen.is_empty() {
+            // every required cycle is invisible to that scan: such a scan would accept the schema
+            dist.hit(&format!("{}_ALL_hidden", key));
+        } else if seen.first() != full.first() {
+            // visible, but the first reported object (the message) would differ
+            dist.hit(&format!("{}_first_reported_differs", key));
+        }
+    }
+}
+
 fn run(case: &Sexp, dist: &mut Dist) -> Sexp {
     let t = p_ts(case);
+    cycle_dist(&t, dist);
     match build(&t) {
         Err(msg) => {
             dist.hit("verdict_rejected");
@@ -1193,30 +1304,252 @@ fn mutate(rng: &mut Rng, t: &mut TS, which: usize) -> Option<&'static str> {
             t.types.push(Def::Obj { name: "HImpl".into(), implements: vec!["H".into()], fields: vec![Fld { name: "h".into(), ty: Ty::N(ret), args: vec![] }] });
             Some(if wrong { "impl-field-type-not-a-member" } else if via_union { "impl-field-type-union-member" } else { "impl-field-type-interface-implementer" })
         }
+        28 => {
+            // a family of input-object rings with other fields around the ring edges
+            if has_family(t) {
+                return None;
+            }
+            let mode = match rng.below(5) {
+                0 => CycMode::Broken,
+                1 | 2 | 3 => CycMode::Required,
+                _ => CycMode::RequiredBehind,
+            };
+            cycle_family(rng, t, mode);
+            Some(cycle_label(t))
+        }
         _ => None,
     }
 }
 
-const N_MUT: usize = 28;
+// ------------------------------------------------------------------ input-object cycle families
+
+/// what `cycle_family` is asked for (the label of the case is computed from the result, not from this)
+#[derive(Clone, Copy, PartialEq)]
+enum CycMode {
+    /// every ring has at least one nullable / list edge, no chords: stays valid
+    Broken,
+    /// at least one ring consists of required edges only
+    Required,
+    /// as `Required`, and a nullable or list field is put in front of a required edge of that ring
+    RequiredBehind,
+}
+
+const RINGS: [&str; 3] = ["Ca", "Cb", "Cc"];
+
+/// Adds 1-3 rings of 1-5 input objects (`Ca1 -> Ca2 -> … -> Ca1`), every member with 0-3 other
+/// fields in random positions before and after the ring edge; optionally a non-cyclic prefix
+/// (`Pre1 -> Pre2 -> ring member`), leaf input objects (`Lf1`, `Lf2`) and a query argument that
+/// uses one of the new types.
+fn cycle_family(rng: &mut Rng, t: &mut TS, mode: CycMode) {
+    let n_rings = match rng.below(6) {
+        0 | 1 | 2 => 1,
+        3 | 4 => 2,
+        _ => 3,
+    };
+    let lens: Vec<usize> = (0..n_rings).map(|_| 1 + rng.below(5)).collect();
+    let member = |r: usize, m: usize| format!("{}{}", RINGS[r], m + 1);
+    let all_members: Vec<String> = (0..n_rings).flat_map(|r| (0..lens[r]).map(move |m| (r, m))).map(|(r, m)| member(r, m)).collect();
+    let with_leaf2 = rng.chance(1, 2);
+    let required_ring = if mode == CycMode::Broken { usize::MAX } else { rng.below(n_rings) };
+    let mut new_defs: Vec<Def> = vec![];
+
+    fn breaking(rng: &mut Rng, to: &str) -> Ty {
+        match rng.below(6) {
+            0 | 1 => Ty::n(to),
+            2 => Ty::n(to).nn().l().nn(),
+            3 => Ty::n(to).l(),
+            4 => Ty::n(to).nn().l(),
+            _ => Ty::n(to).l().nn(),
+        }
+    }
+    // one "other" field; chords (additional required references into the rings) only when allowed
+    fn other(rng: &mut Rng, members: &[String], chords: bool) -> Ty {
+        match rng.below(if chords { 13 } else { 12 }) {
+            0 | 1 => Ty::n(*rng.pick(&BUILTIN)),
+            2 | 3 => {
+                let m = rng.pick(members).clone();
+                match rng.below(3) {
+                    0 => Ty::n(&m).nn().l().nn(),
+                    1 => Ty::n(&m).l(),
+                    _ => Ty::n(&m).nn().l(),
+                }
+            }
+            4 => Ty::n("Int").nn().l().nn(),
+            5 => Ty::n("String").l().nn(),
+            6 | 7 => Ty::n(*rng.pick(&BUILTIN)).nn(),
+            8 => Ty::n("Lf1").nn(),
+            9 => match rng.below(3) {
+                0 => Ty::n("Lf1"),
+                1 => Ty::n("Lf1").nn().l(),
+                _ => Ty::n("Lf1").nn().l().nn(),
+            },
+            10 | 11 => Ty::n(rng.pick(members).as_str()),
+            _ => Ty::n(rng.pick(members).as_str()).nn(),
+        }
+    }
+    fn assemble(rng: &mut Rng, edge: Option<Ty>, others: Vec<Ty>) -> Vec<Arg> {
+        let at = rng.below(others.len() + 1);
+        let mut fields = vec![];
+        let mut k = 0;
+        for (i, ty) in others.into_iter().enumerate() {
+            if i == at {
+                if let Some(e) = &edge {
+                    fields.push(Arg { name: "next".into(), ty: e.clone(), def: rng.chance(1, 10) });
+                }
+            }
+            k += 1;
+            fields.push(Arg { name: format!("o{}", k), ty, def: rng.chance(1, 8) });
+        }
+        if at >= fields.len() || !fields.iter().any(|f| f.name == "next") {
+            if let Some(e) = edge {
+                fields.push(Arg { name: "next".into(), ty: e, def: rng.chance(1, 10) });
+            }
+        }
+        fields
+    }
+
+    for r in 0..n_rings {
+        let k = lens[r];
+        let required = r == required_ring || (mode != CycMode::Broken && rng.chance(1, 4));
+        // which edges break the ring
+        let mut breaks = vec![false; k];
+        if !required {
+            breaks[rng.below(k)] = true;
+            for b in breaks.iter_mut() {
+                if rng.chance(1, 5) {
+                    *b = true;
+                }
+            }
+        }
+        let forced_behind = if r == required_ring && mode == CycMode::RequiredBehind { rng.below(k) } else { usize::MAX };
+        for m in 0..k {
+            let to = member(r, (m + 1) % k);
+            let edge = if breaks[m] { breaking(rng, &to) } else { Ty::n(&to).nn() };
+            let n_others = rng.below(4);
+            let chords = mode != CycMode::Broken && rng.chance(1, 6);
+            let others: Vec<Ty> = (0..n_others).map(|_| other(rng, &all_members, chords)).collect();
+            let mut fields = assemble(rng, Some(edge), others);
+            if m == forced_behind {
+                let front = match rng.below(4) {
+                    0 => Ty::n("String"),
+                    1 => Ty::n("String").nn().l().nn(),
+                    2 => Ty::n(&member(r, m)).l(),
+                    _ => Ty::n("Lf1"),
+                };
+                let at = fields.iter().position(|f| f.name == "next").unwrap_or(0);
+                let at = rng.below(at + 1);
+                fields.insert(at, Arg { name: "front".into(), ty: front, def: false });
+            }
+            let oneof = fields.iter().all(|f| !f.ty.is_nn() && !f.def) && rng.chance(1, 4);
+            new_defs.push(Def::Input { name: member(r, m), oneof, fields });
+        }
+    }
+    // leaves: input objects outside every ring
+    {
+        let mut fields = vec![Arg { name: "lv".into(), ty: Ty::n("Int"), def: false }];
+        if with_leaf2 {
+            let ty = if rng.chance(1, 2) { Ty::n("Lf2").nn() } else { Ty::n("Lf2").nn().l() };
+            let at = rng.below(2);
+            fields.insert(at, Arg { name: "lw".into(), ty, def: false });
+            new_defs.push(Def::Input { name: "Lf2".into(), oneof: false, fields: vec![Arg { name: "lv".into(), ty: Ty::n("String").nn(), def: false }] });
+        }
+        new_defs.push(Def::Input { name: "Lf1".into(), oneof: false, fields });
+    }
+    // a non-cyclic prefix that leads into a ring
+    let mut entry: Vec<String> = all_members.clone();
+    if rng.chance(2, 5) {
+        let plen = 1 + rng.below(2);
+        for i in 0..plen {
+            let to = if i + 1 < plen { format!("Pre{}", i + 2) } else { rng.pick(&all_members).clone() };
+            let edge = if rng.chance(5, 6) { Ty::n(&to).nn() } else { breaking(rng, &to) };
+            let n_others = rng.below(4);
+            let others: Vec<Ty> = (0..n_others).map(|_| other(rng, &all_members, false)).collect();
+            let fields = assemble(rng, Some(edge), others);
+            new_defs.push(Def::Input { name: format!("Pre{}", i + 1), oneof: false, fields });
+        }
+        entry = vec!["Pre1".into()];
+    }
+    // a query field that takes one of the new types (exercised after an accepted build)
+    if rng.chance(1, 2) {
+        let n = rng.pick(&entry).clone();
+        let ty = match rng.below(3) {
+            0 => Ty::n(&n),
+            1 => Ty::n(&n).nn(),
+            _ => Ty::n(&n).nn().l(),
+        };
+        let q = t.query.clone();
+        for d in t.types.iter_mut() {
+            if let Def::Obj { name, fields, .. } = d {
+                if *name == q && !fields.iter().any(|f| f.name == "cyc") {
+                    fields.push(Fld { name: "cyc".into(), ty: Ty::n("Int"), args: vec![Arg { name: "x".into(), ty: ty.clone(), def: false }] });
+                }
+            }
+        }
+    }
+    for d in new_defs {
+        let at = rng.below(t.types.len() + 1);
+        t.types.insert(at, d);
+    }
+}
+
+fn has_family(t: &TS) -> bool {
+    t.types.iter().any(|d| d.name() == "Lf1")
+}
+
+/// label of a case that carries a cycle family, from what was actually built
+fn cycle_label(t: &TS) -> &'static str {
+    if self_requiring(t, Scan::Full).is_empty() {
+        "input-cycfam-broken"
+    } else if self_requiring(t, Scan::StopAtOptionalOrList).is_empty() {
+        "input-cycfam-required-behind-optional-or-list"
+    } else if self_requiring(t, Scan::FirstRefOnly).is_empty() {
+        "input-cycfam-required-behind-required-ref"
+    } else {
+        "input-cycfam-required"
+    }
+}
+
+const N_MUT: usize = 29;
 
 fn gen_case(rng: &mut Rng, _i: usize, _o: &Opts, dist: &mut Dist) -> Sexp {
     let mut t = gen_valid(rng, dist);
-    let mut label = "valid";
+    let mut label = "valid".to_string();
+    // part of the random mix: a valid (broken) ring family beside whatever else the case carries
+    if rng.chance(1, 8) {
+        cycle_family(rng, &mut t, CycMode::Broken);
+        label = "valid+cycfam-broken".to_string();
+    }
     if rng.chance(2, 3) {
         for _ in 0..6 {
-            let which = rng.below(N_MUT + 6);
-            // implementation-compatibility variations are drawn more often
-            let which = if which >= N_MUT { 12 + (which - N_MUT) % 5 } else { which };
+            let which = rng.below(N_MUT + 6 + 5);
+            // implementation-compatibility variations and the cycle families are drawn more often
+            let which = if which >= N_MUT + 6 {
+                28
+            } else if which >= N_MUT {
+                12 + (which - N_MUT) % 5
+            } else {
+                which
+            };
             let mut t2 = t.clone();
             if let Some(l) = mutate(rng, &mut t2, which) {
+                label = if has_family(&t) { format!("mix-{}+cycfam-broken", l) } else { l.to_string() };
                 t = t2;
-                label = l;
                 break;
             }
         }
     }
-    dist.hit(&format!("kind_{}", label));
-    ts_sexp(label, &t)
+    // part of the random mix: a required ring on top of another change (the first failing check decides)
+    if !has_family(&t) && label != "valid" && rng.chance(1, 12) {
+        let mode = if rng.chance(1, 2) { CycMode::Required } else { CycMode::RequiredBehind };
+        cycle_family(rng, &mut t, mode);
+        label = format!("mix-{}+{}", label, &cycle_label(&t)["input-".len()..]);
+    }
+    // the case line keeps the full label; the counters fold the first half of a mix
+    match label.strip_prefix("mix-").and_then(|l| l.split_once('+')) {
+        Some((_, fam)) => dist.hit(&format!("kind_mix-other-change+{}", fam)),
+        None => dist.hit(&format!("kind_{}", label)),
+    }
+    ts_sexp(&label, &t)
 }
 
 fn main() {
